@@ -1237,6 +1237,7 @@ func streamC08Probe(c *ctx) {
 			consumeCase(c, kind, f, d, nil, "None", tag+"-payload-not-strict", "any")
 		}
 	}
+	typedPayloadProbes(c)
 	// one label held under two Go integer types, for every pair of types: refused, never merged or written twice
 	// (the encoder is asked several times: a merge picks its survivor by map iteration order)
 	intOf := []func(v int) any{
